@@ -123,6 +123,18 @@ func VerifC12Notation() {
 	c := checks[nd.Choice("check", len(checks))]
 	got, err := li.Match(MatchInput{TableName: "t", Expression: c.expr, ExpressionType: ExpressionTypeFilter, Item: c.item, Attributes: c.vals})
 	nd.Assert(err == nil && got, "C12-equal-values-in-different-notation-are-equal ["+c.expr+"]")
+	// and the converse on numbers that are close together but not equal (lo < hi): no tolerance, no truncation
+	close := [][2]string{{"0.0000000004", "0.0000000005"}, {"3.1415926535", "3.1415926536"}, {"-0.75", "-0.5"}, {"1e-20", "2e-20"}, {"999999999.9999", "1000000000"}, {"4503599627370495.5", "4503599627370496"}}
+	lh := close[nd.Choice("close-pair", len(close))]
+	lo, hi := lh[0], lh[1]
+	for _, t := range []struct {
+		expr string
+		want bool
+	}{{"a = :x", false}, {"a <> :x", true}, {"a < :x", true}, {"a >= :x", false}, {"a BETWEEN :x AND :x", false}, {":x > a", true}, {"a IN (:x)", false}} {
+		g, e := li.Match(MatchInput{TableName: "t", Expression: t.expr, ExpressionType: ExpressionTypeFilter,
+			Item: map[string]*types.Item{"a": num(lo)}, Attributes: map[string]*types.Item{":x": num(hi)}})
+		nd.Assert(e == nil && g == t.want, "C12-close-but-different-numbers-are-different ["+t.expr+"]")
+	}
 	nd.Reach("end")
 }
 
